@@ -61,6 +61,8 @@ def active_derived(f: FuncInfo, e: ast.expr, depth: int = 0) -> bool:
         return True
     if isinstance(e, ast.Name) and depth < 4:
         defs = [s for s in ast.walk(f.node) if isinstance(s, ast.Assign) and any(isinstance(t, ast.Name) and t.id == e.id for t in s.targets)]
+        defs += [s for s in ast.walk(f.node) if isinstance(s, ast.NamedExpr) and isinstance(s.target, ast.Name) and s.target.id == e.id]
+        defs += [s for s in ast.walk(f.node) if isinstance(s, ast.AnnAssign) and s.value is not None and isinstance(s.target, ast.Name) and s.target.id == e.id]
         if defs:
             return all(active_derived(f, d.value, depth + 1) for d in defs)
     return False
